@@ -703,4 +703,124 @@ theorem constraints_roundtrip (life : Nat) (conf : Bool) (exts : List (Bytes × 
   rw [hf]
   exact pc_roundtrip_fuel life conf exts hl hx f
 
+/-! ### Add and List through the wire -/
+
+theorem add_res (r : KR) (now : Int) (q : AddReq) : (r.add now q).2 = .ok ∨ (r.add now q).2 = .err := by
+  simp only [KR.add_eq]; (repeat' split) <;> simp
+
+/-- the processing of an add request whose key material is a known identity -/
+theorem processRequest_add (ids : List Ident) (r : KR) (now : Int) (op : UInt8) (hop : op = 17 ∨ op = 25)
+    (i : Ident) (comment cons : Bytes) (hc : comment.length < 2 ^ 32)
+    (hfind : findIdent ids (i.prefix_ ++ (putStr comment ++ cons)) = some (i, putStr comment ++ cons)) :
+    processRequest ids r now (op :: (i.prefix_ ++ (putStr comment ++ cons))) =
+      match parseConstraints (cons.length + 1) cons 0 false 0 with
+      | none => (r, .failure)
+      | some (life, conf, next) =>
+        ((r.add now ⟨i.blob, true, comment, life, conf, next⟩).1,
+          mapRes (r.add now ⟨i.blob, true, comment, life, conf, next⟩).2) := by
+  have hg := getStr_putStr comment cons hc
+  rcases hop with rfl | rfl
+  · simp only [processRequest, hfind, hg,
+      show ((17 : UInt8) == 1) = false by decide, show ((17 : UInt8) == 9) = false by decide,
+      show ((17 : UInt8) == 18) = false by decide, show ((17 : UInt8) == 19) = false by decide,
+      show ((17 : UInt8) == 22) = false by decide, show ((17 : UInt8) == 23) = false by decide,
+      show ((17 : UInt8) == 13) = false by decide, show ((17 : UInt8) == 11) = false by decide,
+      beq_self_eq_true, Bool.true_or, if_true, Bool.false_eq_true, if_false]
+    cases parseConstraints (cons.length + 1) cons 0 false 0 with
+    | none => rfl
+    | some t => obtain ⟨l, c, n⟩ := t; rfl
+  · simp only [processRequest, hfind, hg,
+      show ((25 : UInt8) == 1) = false by decide, show ((25 : UInt8) == 9) = false by decide,
+      show ((25 : UInt8) == 18) = false by decide, show ((25 : UInt8) == 19) = false by decide,
+      show ((25 : UInt8) == 22) = false by decide, show ((25 : UInt8) == 23) = false by decide,
+      show ((25 : UInt8) == 13) = false by decide, show ((25 : UInt8) == 11) = false by decide,
+      show ((25 : UInt8) == 17) = false by decide,
+      beq_self_eq_true, Bool.or_true, Bool.false_or, if_true, Bool.false_eq_true, if_false]
+    cases parseConstraints (cons.length + 1) cons 0 false 0 with
+    | none => rfl
+    | some t => obtain ⟨l, c, n⟩ := t; rfl
+
+/-- **wire_add**: `client.Add` (constraint encoder, opcode 17/25, comment) followed by the server's
+    `insertIdentity` + `parseConstraints` is exactly `keyring.Add` with that comment, lifetime, confirm flag
+    and number of constraint extensions; the key material is the opaque prefix of a known identity. -/
+theorem wire_add (ids : List Ident) (r : KR) (now : Int) (i : Ident) (comment : Bytes) (life : Nat)
+    (conf : Bool) (exts : List (Bytes × Bytes)) (hc : comment.length < 2 ^ 32) (hl : life < 2 ^ 32)
+    (hx : ∀ e ∈ exts, e.1.length < 2 ^ 32 ∧ e.2.length < 2 ^ 32)
+    (hfind : ∀ rest, findIdent ids (i.prefix_ ++ rest) = some (i, rest)) :
+    wireStep ids r now (.add i false comment life conf exts) =
+      r.add now ⟨i.blob, true, comment, life, conf, exts.length⟩ := by
+  have hrt := constraints_roundtrip life conf exts hl hx
+  have hp := processRequest_add ids r now (if (encConstraints life conf exts).isEmpty then 17 else 25)
+    (by split <;> simp) i comment (encConstraints life conf exts) hc (hfind _)
+  simp only [wireStep, COp.request, Bool.false_eq_true, if_false, encAdd, hp, hrt, COp.decode]
+  rw [mapRes_decSimple _ (add_res r now _)]
+
+example : ∀ rest, findIdent [⟨[1], [0, 0, 0, 1, 7]⟩] (([0, 0, 0, 1, 7] : Bytes) ++ rest) = some (⟨[1], [0, 0, 0, 1, 7]⟩, rest) := by
+  intro rest; simp [findIdent, isPrefixOf]
+
+theorem decKeys_enc (ks : List (Bytes × Bytes))
+    (hk : ∀ k ∈ ks, WellFormedBlob k.1 ∧ k.2.length < 2 ^ 32) :
+    decKeys ks.length (ks.map fun k => putStr k.1 ++ putStr k.2).flatten = some ks := by
+  induction ks with
+  | nil => simp [decKeys]
+  | cons k ks ih =>
+    obtain ⟨⟨hlen, f, rest, hf⟩, hcl⟩ := hk k (by simp)
+    have h1 := getStr_putStr k.1 (putStr k.2 ++ (ks.map fun k => putStr k.1 ++ putStr k.2).flatten) hlen
+    have h2 := getStr_putStr k.2 ((ks.map fun k => putStr k.1 ++ putStr k.2).flatten) hcl
+    simp only [List.length_cons, List.map_cons, List.flatten_cons, List.append_assoc, decKeys, h1, h2, hf,
+      ih (fun x hx => hk x (List.mem_cons_of_mem _ hx))]
+    simp
+
+/-- the identities answer decodes to the listed keys, in order -/
+theorem list_reply_roundtrip (ks : List (Bytes × Bytes))
+    (hk : ∀ k ∈ ks, WellFormedBlob k.1 ∧ k.2.length < 2 ^ 32) (hn : ks.length ≤ maxAgentBytes / 8) :
+    decList (.bytes (encIdentities ks)) = .keys ks := by
+  have hlt : ks.length < 2 ^ 32 := by
+    have : maxAgentBytes / 8 < 2 ^ 32 := by decide
+    omega
+  simp only [encIdentities, decList, getU32_putU32 _ _ hlt, decKeys_enc ks hk]
+  have : ¬ ks.length > maxAgentBytes / 8 := by omega
+  simp [this]
+
+theorem expire_subset (now : Int) (keys ks : List PK) (h : expireKeys now keys = some ks) : ∀ k ∈ ks, k ∈ keys := by
+  obtain ⟨ks', h', _, S, _, hp⟩ := expireFrom_spec now keys keys.length 0 keys [] (expInv_init now keys)
+  have : ks' = ks := by
+    have := h'.symm.trans h
+    simpa using this
+  subst this
+  intro k hk
+  exact (List.mem_filter.1 (hp.subset hk)).1
+
+/-- **wire_list**: `client.List` through `ServeAgent` returns exactly what `keyring.List` returns
+    (same keys, same comments, same order), and leaves the same state -/
+theorem wire_list (ids : List Ident) (r : KR) (now : Int)
+    (hk : ∀ k ∈ r.keys, WellFormedBlob k.blob ∧ k.comment.length < 2 ^ 32)
+    (hn : r.keys.length ≤ maxAgentBytes / 8) :
+    wireStep ids r now .list = r.list now := by
+  simp only [wireStep, COp.request, encList, processRequest,
+    show ((11 : UInt8) == 1) = false by decide, show ((11 : UInt8) == 9) = false by decide,
+    show ((11 : UInt8) == 18) = false by decide, show ((11 : UInt8) == 19) = false by decide,
+    show ((11 : UInt8) == 22) = false by decide, show ((11 : UInt8) == 23) = false by decide,
+    show ((11 : UInt8) == 13) = false by decide, beq_self_eq_true, if_true, Bool.false_eq_true, if_false,
+    COp.decode]
+  cases hl : r.locked with
+  | true =>
+    simp only [KR.list, hl, if_true]
+    rw [list_reply_roundtrip [] (by simp) (by simp)]
+  | false =>
+    obtain ⟨ks, hks⟩ := expire_no_panic now r.keys
+    have hsub := expire_subset now r.keys ks hks
+    simp only [KR.list, hl, Bool.false_eq_true, if_false, hks]
+    have hlen : (ks.map fun k => (k.blob, k.comment)).length ≤ maxAgentBytes / 8 := by
+      obtain ⟨ks', h', _, S, _, hp⟩ := expireFrom_spec now r.keys r.keys.length 0 r.keys [] (expInv_init now r.keys)
+      have : ks' = ks := by simpa using h'.symm.trans hks
+      subst this
+      have := hp.length_eq
+      have h2 := List.length_filter_le (fun e => !S.contains e.blob) r.keys
+      simp only [List.length_map]; omega
+    rw [list_reply_roundtrip _ (by
+      intro k hk'
+      obtain ⟨x, hx, rfl⟩ := List.mem_map.1 hk'
+      exact hk x (hsub x hx)) hlen]
+
 end XC.C43
